@@ -19,7 +19,7 @@ class Exec:
         s.solver_time = 0.0
         s.funcs_run = set()
         s.models_hit = set()
-        import models
+        import models, models_io
         s.models = models.MODELS
 
     # ------------------------------------------------------------ path state
@@ -667,6 +667,10 @@ class Exec:
             except Violation as v:
                 s.violation(v.kind, v.msg); end = 'violation:' + v.kind
             except BoundExceeded as b:
+                if s.B.get('depth_is_violation') and b.msg.startswith('call depth'):
+                    s.violation('depth', 'recursion deeper than %d frames: %s' % (s.B['depth'], ' <- '.join(f.code.name[:60] for f in s.frames[-4:]))); npaths += 1; ends['violation:depth'] += 1; total_steps += s.steps - seg
+                    if not s.save: break
+                    sn = s.save.pop(); s.restore(sn); seg = s.steps; continue
                 end = 'bound'; inconclusive.append(dict(msg=b.msg, dec=list(s.dec), stack=[f.code.name for f in s.frames[-6:]]))
             except Unmodelled as u:
                 end = 'unmodelled'; inconclusive.append(dict(msg=str(u), dec=list(s.dec), stack=[f.code.name for f in s.frames[-6:]]))
